@@ -159,6 +159,7 @@ int hx_hash_known(int ha);
 extern const char *const hx_kinds[];
 extern const int hx_nkinds;
 extern long hx_force_len;
+extern int hx_len_long;
 
 /* run `sp` alone on the oracle manager for variant v; fills out (caller frees). returns status */
 int hx_run_alone(const hx_variant *v, const hx_spec *sp, hx_job *out);
